@@ -662,6 +662,13 @@ class Env:
         err = None
         rep = None
         thy = self.theory.thy
+        self.installed_log = []
+        orig_add = thy.add_theorem
+
+        def add_theorem(name, th):          # harness-side hook on this Theory object only
+            orig_add(name, th)
+            self.installed_log.append(name)
+        thy.add_theorem = add_theorem
         try:
             with time_limit(30):
                 rep = thy.checked_extend(exts)
@@ -677,6 +684,8 @@ class Env:
             if thy.has_theorem(n):
                 installed.append((n, self.dec(thy.get_theorem(n, svar=False))))
         axioms = None if rep is None else [(n, self.dec(t)) for n, t in rep.get_axioms()]
+        del thy.add_theorem
+        self.last_installed = list(self.installed_log)
         return installed, axioms, err
 
 
@@ -942,24 +951,26 @@ def same_seq(a, b):
 
 
 def judge_extend(ctx, env, case, res):
-    """Admitted as proved (installed, proof supplied, not listed as axiom) only if the proof alone is
-    accepted with no gaps and concludes the stated theorem."""
+    """Every theorem extension that was installed (in order, names may repeat and overwrite): without
+    proof -> reported as axiom; with proof -> the proof alone, in the table as it was at that moment
+    (a dict: later statements replace earlier ones), is justified, gap-free and concludes the theorem."""
     installed, axioms, err = res
-    inst = dict(installed)
-    thms = list(case["thms"])
+    table = {n: mk(s[0], s[1]) for n, s in case["thms"]}
+    theorem_exts = [x for x in case["exts"] if x != "other"]
+    log = list(getattr(env, "last_installed", []))
     filed = False
-    for x in case["exts"]:
-        if x == "other":
-            continue
+    for k, x in enumerate(theorem_exts):
+        if k >= len(log):
+            break
         _, name, s, items = x
         st = mk(s[0], s[1])
-        is_in = name in inst and same_seq(inst[name], st)
-        listed = axioms is not None and any(n == name for n, _ in axioms)
-        if is_in and items is None and axioms is not None and not listed:
-            ctx.violation("extend:axiom-not-reported", "checked_extend installed %s without proof and without reporting an axiom" % name,
-                          {"kind": "extend", "case": case})
-            filed = True
-        if is_in and items is not None and not listed:
+        thms = [[n, [list(t[0]), t[1]]] for n, t in table.items()]
+        if items is None:
+            if axioms is not None and not any(n == name and same_seq(t, st) for n, t in axioms):
+                ctx.violation("extend:axiom-not-reported", "checked_extend installed %s without proof and without reporting an axiom" % name,
+                              {"kind": "extend", "case": case})
+                filed = True
+        else:
             reason = None
             try:
                 final, gaps, _ = ref_check(items, thms, True, 0)
@@ -969,17 +980,19 @@ def judge_extend(ctx, env, case, res):
                     reason = "wrong-conclusion"
             except Flag as f:
                 reason = "proof-not-justified:" + f.cls
-            if reason is None:
-                alone = env.check({"cfg": [True, False, 0], "thms": thms, "items": items})
-                if alone[0] != "ok":
-                    reason = "proof-rejected-alone"
             if reason:
                 ctx.violation("extend:admitted-unproved:" + reason,
-                              "checked_extend admitted %s : %s as proved, but %s" % (name, st, reason),
+                              "checked_extend admitted %s : %s as proved, but %s (table then: %s)" % (name, st, reason, thms),
                               {"kind": "extend", "case": case, "reason": reason})
                 filed = True
-        if is_in:
-            thms.append([name, [list(st[0]), st[1]]])
+        table[name] = st
+    # what the theory holds afterwards is the last statement installed under each name
+    final_tab = {n: t for n, t in installed}
+    for n, t in table.items():
+        if n in final_tab and not same_seq(final_tab[n], t):
+            ctx.violation("extend:table-not-last-write", "after checked_extend the theory holds %s under %s, last installed was %s" % (final_tab[n], n, t),
+                          {"kind": "extend", "case": case})
+            filed = True
     return filed
 
 
@@ -1612,19 +1625,23 @@ def same_result(m, r, case=None):
 
 
 def stream_extend(ctx, env, cases, label):
-    impl = [env.extend(c) for c in cases]
+    impl = []
+    for c in cases:
+        r = env.extend(c)
+        impl.append(r)
+        judge_extend(ctx, env, c, r)
     out = ctx.lean_driver(EXE, [line_extend(c) for c in cases], timeout=3000) if cases else []
     ndis = 0
-    canon = lambda l: None if l is None else [(n, (tuple(sorted(set(s[0]))), s[1])) for n, s in l]
+    canon_l = lambda l: None if l is None else [(n, (tuple(sorted(set(s[0]))), s[1])) for n, s in l]
+    canon = lambda l: None if l is None else sorted(canon_l(l))
     for idx, case in enumerate(cases):
         res = impl[idx]
         ctx.case(("extend", json.dumps(case, sort_keys=True)), nontrivial=any(x != "other" and x[3] is not None for x in case["exts"]))
         ctx.count("%s:%s" % (label, res[2] or "ok"))
-        judge_extend(ctx, env, case, res)
         if out is not None:
             m = parse_extend(out[idx])
             ok = (m[0] != "bad-op" and canon(m[0]) == canon(res[0]) and coarse(m[2]) == coarse(res[2])
-                  and (res[1] is None or canon(m[1]) == canon(res[1])))
+                  and (res[1] is None or canon_l(m[1]) == canon_l(res[1])))
             if not ok:
                 ndis += 1
                 if ndis <= 3:
@@ -1994,6 +2011,36 @@ def run(ctx):
             ecases.append({"thms": base, "exts": exts})
         stream_extend(ctx, env, ecases, "extend")
         ctx.sample(ecases[len(proofs) + 2])
+        # lists in which names repeat and overwrite each other (also a theorem of the base theory),
+        # with proofs by `theorem <name>` before and after the name was given a new statement
+        names = ["verif_a", "verif_b", "verif_t0"]
+        ocases = [{"thms": base, "exts": [["thm", "verif_a", [[], 0], None], ["thm", "verif_b", [[], 0], [[[0], "theorem", "verif_a", [], None, None]]],
+                                           ["thm", "verif_a", [[], 1], None], ["thm", "verif_c", [[], 0], [[[0], "theorem", "verif_a", [], None, None]]]]}]
+        for _ in range(ctx.scale(400, 6000)):
+            exts = []
+            cur = {"verif_t0": 0, "verif_t1": 1}
+            for k in range(r.randint(3, 6)):
+                nm = r.choice(names)
+                c = r.randrange(3)
+                kind = r.random()
+                if kind < 0.3:
+                    prf = None
+                elif kind < 0.5:
+                    prf = [[[0], "verif_ax", [[], c if r.random() < 0.8 else (c + 1) % 3], [], None, None]]
+                elif kind < 0.9:
+                    src = r.choice(names + ["verif_t1"])
+                    # aim at what `src` holds now, or at what it held before
+                    if src in cur and r.random() < 0.7:
+                        c = cur[src]
+                    prf = [[[0], "theorem", src, [], None, None]]
+                    if r.random() < 0.3:
+                        prf.append([[1], "verif_id", None, [[0]], None, None])
+                else:
+                    prf = [[[0], "sorry", None, [], [[], c], None]]
+                exts.append(["thm", nm, [[], c], prf])
+                cur[nm] = c      # optimistic; a refused extension ends the run anyway
+            ocases.append({"thms": base, "exts": exts})
+        stream_extend(ctx, env, ocases, "extend-overwrite")
     finally:
         if env is not None:
             env.close()
@@ -2044,6 +2091,9 @@ MANIFEST = {
     "design_ref": "DESIGN.md 4/C02",
 }
 FINDINGS = [
+    {"status": "fixed", "key": "extend:admitted-unproved:wrong-conclusion", "commit": "fixes/C02-6.patch",
+     "what": "after a theorem name was given a new statement, get_theorem kept serving the cached schematic version of the OLD one: "
+             "checked_extend([a: |- p0, b: |- p0 by theorem a, a: |- p1, c: |- p0 by theorem a]) admitted c as proved"},
     {"status": "fixed", "key": "accepted:cites-enclosing-item", "commit": "e77df27",
      "what": "check_proof(no_gaps=True) returned |- false for a proof in which ONE ProofItem object (id 2, citing 0) sits inside the "
              "stated block 0 and again at top level: the id guard looked the item up by its id instead of comparing it with the walked position"},
